@@ -142,6 +142,10 @@ pub struct LibTy {
     /// Rust type expression
     pub rust: String,
     pub wire: Box<Ty>,
+    /// the wire format is NOT modelled: `wire` only gives the shape of the `Val`s the glue
+    /// produces; checks that need reference bytes skip the type, round trips / fault
+    /// enumeration / schema-driven parsing (consumption only) still apply
+    pub opaque: bool,
 }
 
 #[derive(Clone, Copy, Debug, PartialEq, Eq, Hash)]
@@ -359,6 +363,10 @@ impl Ty {
     pub fn prim(p: Prim) -> Ty {
         Ty::Prim(p)
     }
+    /// does the type contain a library type whose wire format is not modelled?
+    pub fn has_opaque(&self) -> bool {
+        self.feature_string().contains("opaque_lib")
+    }
     pub fn max_version(&self) -> u32 {
         match self {
             Ty::Prim(_) => 0,
@@ -440,6 +448,9 @@ impl Ty {
             }
             Ty::Lib(l) => {
                 out.insert(format!("lib_{}", l.key));
+                if l.opaque {
+                    out.insert("opaque_lib".into());
+                }
             }
             Ty::Def(d) => match &d.kind {
                 DefKind::Struct(s) => {
